@@ -360,6 +360,21 @@ def deep_defs(ctx, f: FuncInfo, e: ast.AST, depth: int = 2) -> list[tuple[FuncIn
     return out
 
 
+def emptiness_test(e: ast.AST) -> ast.AST | None:
+    """X if e tests that the collection X is empty: `not X`, `len(X) == 0`, `len(X) < 1`, `not len(X)`; else None."""
+    if isinstance(e, ast.UnaryOp) and isinstance(e.op, ast.Not):
+        inner = e.operand
+        if isinstance(inner, ast.Call) and isinstance(inner.func, ast.Name) and inner.func.id == "len" and len(inner.args) == 1:
+            return inner.args[0]
+        return inner
+    if isinstance(e, ast.Compare) and len(e.ops) == 1 and isinstance(e.left, ast.Call) and isinstance(e.left.func, ast.Name) and e.left.func.id == "len" and len(e.left.args) == 1 \
+            and isinstance(e.comparators[0], ast.Constant):
+        k = (type(e.ops[0]), e.comparators[0].value)
+        if k in ((ast.Eq, 0), (ast.Lt, 1), (ast.LtE, 0)):
+            return e.left.args[0]
+    return None
+
+
 def stored_value(f: FuncInfo, target: str) -> ast.expr | None:
     """The value stored to `target` (dotted text, e.g. 'self.store_result') in f as ONE expression: the assigned value when there is a single
     store, or the equivalent conditional expression when the two arms of one if/else each store it once (`x = a if c else b` <-> if c: x = a else: x = b)."""
